@@ -1,0 +1,1 @@
+//! Verification hooks: ops (cfg `rten_verif`).
